@@ -230,7 +230,18 @@ def job_inner(j):
     ex.base = BASE_EX.base
     ex.global_objs = BASE_EX.global_objs
     ex.init_mode = False
-    finished = ex.run_harness(hname)
+    budget_hit = False
+    try:
+        finished = ex.run_harness(hname)
+    except JobTimeout:
+        # exploration did not finish: discharge what was collected so far (a violation found
+        # on an explored path is still a violation); the case as a whole stays inconclusive
+        if hc.get('_hunt'):
+            raise
+        finished = []
+        budget_hit = True
+        import signal
+        signal.alarm(int(hc.get('discharge_after_timeout_s', 420)))
     res = ex.res
     short = hname.split('.H_')[-1]
     pkgdir = hname.split('/')[1].split('.')[0]
@@ -244,120 +255,126 @@ def job_inner(j):
     nsolve = 0
     tsolve = 0.0
     for ob in res.obligations:
-        assertions = list(ob.pc) + ([ob.neg] if ob.neg is not None else [])
-        key = hashlib.sha1((hname + '|' + ob.label + '|' + json.dumps(ob.choices, sort_keys=True) + '|' + '\n'.join(a.sexpr() for a in assertions)).encode()).hexdigest()
-        rec = dict(label=ob.label, kind=ob.kind, hash=key[:12], size=sum(len(a.sexpr()) for a in assertions))
-        if key in seen:
-            rec.update(seen[key])
-            rec.update(label=ob.label, solver='dedup', time=0.0, dup=True)
-            obs.append(rec)
-            continue
-        excluded = []
-        if hc.get('_hunt') and (ob.kind not in ('assert', 'panic') or any(o.get('verdict') == 'violation' for o in obs)):
-            continue   # bug hunting only: assertions, and one reproduced violation is enough
-        if ob.kind == 'unwind':
-            # unwinding assertion failed: the bound was too small to finish this path.
-            # Never a violation, never success: inconclusive.
-            rec.update(verdict='unknown', solver='unwind', time=0.0)
-            seen[key] = rec
-            obs.append(rec)
-            continue
-        while True:
-            r = solve.solve(list(ob.pc) + excluded, ob.neg, ob.nondet, inproc_ms=inproc_ms, ext_s=ext_s,
-                            solvers=hc.get('solvers'), workdir=WORK, force_ext=hc.get('force_ext', False))
-            nsolve += 1
-            tsolve += r['time']
-            rec.update(verdict=r['verdict'], solver=r['solver'], time=round(r['time'], 3))
-            if r['verdict'] != 'sat':
-                if excluded and r['verdict'] == 'unsat':
-                    rec['verdict'] = 'known-only'
-                break
-            vals = dict(r['values'])
-            # values of nondets missing from an external model default to 0
-            for k, (kind, bits, term) in ob.nondet.items():
-                vals.setdefault(k, 0)
-            case = values_to_case(short, vals, ob.choices, hc.get('params', {}), j['presets'])
-            rec['case'] = case
-            # which known finding (if any) does the model match?
-            hit = None
-            for f in findings:
-                if f.get('label') and f['label'] not in ob.label:
-                    continue
-                try:
-                    p = eval_pred(f['predicate'], ob.nondet) if f.get('predicate') else z3.BoolVal(True)
-                except Exception as e:
-                    rec['pred_error'] = str(e)
-                    continue
-                s = z3.Solver()
-                for k, (kind, bits, term) in ob.nondet.items():
-                    if kind != 'real' and k in vals:
-                        s.add(term == vals[k])
-                s.add(p)
-                if s.check() == z3.sat:
-                    hit = (f, p)
+        if budget_hit == 'discharge':
+            break
+        try:
+            assertions = list(ob.pc) + ([ob.neg] if ob.neg is not None else [])
+            key = hashlib.sha1((hname + '|' + ob.label + '|' + json.dumps(ob.choices, sort_keys=True) + '|' + '\n'.join(a.sexpr() for a in assertions)).encode()).hexdigest()
+            rec = dict(label=ob.label, kind=ob.kind, hash=key[:12], size=sum(len(a.sexpr()) for a in assertions))
+            if key in seen:
+                rec.update(seen[key])
+                rec.update(label=ob.label, solver='dedup', time=0.0, dup=True)
+                obs.append(rec)
+                continue
+            excluded = []
+            if hc.get('_hunt') and (ob.kind not in ('assert', 'panic') or any(o.get('verdict') == 'violation' for o in obs)):
+                continue   # bug hunting only: assertions, and one reproduced violation is enough
+            if ob.kind == 'unwind':
+                # unwinding assertion failed: the bound was too small to finish this path.
+                # Never a violation, never success: inconclusive.
+                rec.update(verdict='unknown', solver='unwind', time=0.0)
+                seen[key] = rec
+                obs.append(rec)
+                continue
+            while True:
+                r = solve.solve(list(ob.pc) + excluded, ob.neg, ob.nondet, inproc_ms=inproc_ms, ext_s=ext_s,
+                                solvers=hc.get('solvers'), workdir=WORK, force_ext=hc.get('force_ext', False))
+                nsolve += 1
+                tsolve += r['time']
+                rec.update(verdict=r['verdict'], solver=r['solver'], time=round(r['time'], 3))
+                if r['verdict'] != 'sat':
+                    if excluded and r['verdict'] == 'unsat':
+                        rec['verdict'] = 'known-only'
                     break
-            ckey = (ob.label, hit[0]['id'] if hit else None)
-            if ckey in confirmed:
-                # the same assertion (and the same finding class) was already
-                # reproduced natively in this job: do not replay again
-                reproduced = True
-                rec['native'] = ['fail', 'same assertion already reproduced natively on another path']
-                nat = [rec['native']]
-            else:
-                nat, out = run_native(pkgdir, [case], WORK, 'cx')
-                rec['native'] = nat[0][:2] if nat[0] else None
-                reproduced = nat[0] is not None and nat[0][0] in ('fail', 'panic')
-                if ob.kind == 'panic':
-                    reproduced = nat[0] is not None and nat[0][0] == 'panic'
-                if ob.kind == 'frame':
-                    reproduced = True  # decided by the executor's own monitor
-                if reproduced:
-                    confirmed[ckey] = True
-            if not reproduced and ob.kind == 'range' and not rec.get('combined'):
-                # an overflow witness whose replay happens to pass: look for a witness where a
-                # second operation on the same path condition overflows as well (two cooperating
-                # overflows are what turns a comparison of two products around)
-                rec['combined'] = True
-                sibs = [o for o in res.obligations if o.kind == 'range' and o is not ob and len(o.pc) == len(ob.pc)
-                        and all(a.eq(b) for a, b in zip(o.pc, ob.pc))]
-                found = False
-                for sib in sibs[:6]:
-                    r2 = solve.solve(list(ob.pc) + [ob.neg], sib.neg, ob.nondet, inproc_ms=inproc_ms, ext_s=min(ext_s, 30),
-                                     solvers=hc.get('solvers'), workdir=WORK)
-                    nsolve += 1
-                    tsolve += r2['time']
-                    if r2['verdict'] != 'sat':
+                vals = dict(r['values'])
+                # values of nondets missing from an external model default to 0
+                for k, (kind, bits, term) in ob.nondet.items():
+                    vals.setdefault(k, 0)
+                case = values_to_case(short, vals, ob.choices, hc.get('params', {}), j['presets'])
+                rec['case'] = case
+                # which known finding (if any) does the model match?
+                hit = None
+                for f in findings:
+                    if f.get('label') and f['label'] not in ob.label:
                         continue
-                    vals2 = dict(r2['values'])
+                    try:
+                        p = eval_pred(f['predicate'], ob.nondet) if f.get('predicate') else z3.BoolVal(True)
+                    except Exception as e:
+                        rec['pred_error'] = str(e)
+                        continue
+                    s = z3.Solver()
                     for k, (kind, bits, term) in ob.nondet.items():
-                        vals2.setdefault(k, 0)
-                    case2 = values_to_case(short, vals2, ob.choices, hc.get('params', {}), j['presets'])
-                    nat2, out2 = run_native(pkgdir, [case2], WORK, 'cx')
-                    if nat2[0] is not None and nat2[0][0] in ('fail', 'panic'):
-                        rec['case'] = case2
-                        rec['native'] = nat2[0][:2]
-                        nat = nat2
-                        reproduced = True
-                        found = True
+                        if kind != 'real' and k in vals:
+                            s.add(term == vals[k])
+                    s.add(p)
+                    if s.check() == z3.sat:
+                        hit = (f, p)
                         break
-                if not found:
+                ckey = (ob.label, hit[0]['id'] if hit else None)
+                if ckey in confirmed:
+                    # the same assertion (and the same finding class) was already
+                    # reproduced natively in this job: do not replay again
+                    reproduced = True
+                    rec['native'] = ['fail', 'same assertion already reproduced natively on another path']
+                    nat = [rec['native']]
+                else:
+                    nat, out = run_native(pkgdir, [case], WORK, 'cx')
+                    rec['native'] = nat[0][:2] if nat[0] else None
+                    reproduced = nat[0] is not None and nat[0][0] in ('fail', 'panic')
+                    if ob.kind == 'panic':
+                        reproduced = nat[0] is not None and nat[0][0] == 'panic'
+                    if ob.kind == 'frame':
+                        reproduced = True  # decided by the executor's own monitor
+                    if reproduced:
+                        confirmed[ckey] = True
+                if not reproduced and ob.kind == 'range' and not rec.get('combined'):
+                    # an overflow witness whose replay happens to pass: look for a witness where a
+                    # second operation on the same path condition overflows as well (two cooperating
+                    # overflows are what turns a comparison of two products around)
+                    rec['combined'] = True
+                    sibs = [o for o in res.obligations if o.kind == 'range' and o is not ob and len(o.pc) == len(ob.pc)
+                            and all(a.eq(b) for a, b in zip(o.pc, ob.pc))]
+                    found = False
+                    for sib in sibs[:6]:
+                        r2 = solve.solve(list(ob.pc) + [ob.neg], sib.neg, ob.nondet, inproc_ms=inproc_ms, ext_s=min(ext_s, 30),
+                                         solvers=hc.get('solvers'), workdir=WORK)
+                        nsolve += 1
+                        tsolve += r2['time']
+                        if r2['verdict'] != 'sat':
+                            continue
+                        vals2 = dict(r2['values'])
+                        for k, (kind, bits, term) in ob.nondet.items():
+                            vals2.setdefault(k, 0)
+                        case2 = values_to_case(short, vals2, ob.choices, hc.get('params', {}), j['presets'])
+                        nat2, out2 = run_native(pkgdir, [case2], WORK, 'cx')
+                        if nat2[0] is not None and nat2[0][0] in ('fail', 'panic'):
+                            rec['case'] = case2
+                            rec['native'] = nat2[0][:2]
+                            nat = nat2
+                            reproduced = True
+                            found = True
+                            break
+                    if not found:
+                        rec['verdict'] = 'spurious'
+                        break
+                elif not reproduced:
                     rec['verdict'] = 'spurious'
                     break
-            elif not reproduced:
-                rec['verdict'] = 'spurious'
-                break
-            if hit is None:
-                rec['verdict'] = 'violation'
-                rec['native_msg'] = nat[0][1]
-                break
-            rec.setdefault('known', []).append(hit[0]['id'])
-            excluded.append(z3.Not(hit[1]))
-            if len(excluded) > 8:
-                rec['verdict'] = 'unknown'
-                break
-            continue
-        seen[key] = rec
-        obs.append(rec)
+                if hit is None:
+                    rec['verdict'] = 'violation'
+                    rec['native_msg'] = nat[0][1]
+                    break
+                rec.setdefault('known', []).append(hit[0]['id'])
+                excluded.append(z3.Not(hit[1]))
+                if len(excluded) > 8:
+                    rec['verdict'] = 'unknown'
+                    break
+                continue
+            seen[key] = rec
+            obs.append(rec)
+        except JobTimeout:
+            budget_hit = 'discharge'
+
     # An overflow witness of the rounded-real reading whose replay passes leaves the reading
     # without a verdict for the inputs on which some operation overflows.  Hunt for a
     # violation on the same harness bit-exactly (float32 semantics incl. Inf/NaN): a model
@@ -385,6 +402,68 @@ def job_inner(j):
             hunt_notes.append('bit-exact hunt failed: %s: %s' % (type(e).__name__, e))
         finally:
             fpops.CTX.mode, fpops.CTX.pending, fpops.CTX.assumptions, fpops.CTX.range_checks = saved
+    # Path witnesses with the native harness as oracle (harnesses whose native assertions are
+    # tolerance-robust, e.g. exact-real readings whose violated obligations the solver cannot
+    # model): the solver supplies a model of the path condition of some explored paths, the
+    # native harness runs the real code on it; a failing assertion there is a reproduced
+    # violation.  Bug finding only: nothing is claimed from witnesses that pass.
+    nor = int(hc.get('oracle', 0))
+    if nor and not hc.get('_hunt') and not any(o.get('verdict') == 'violation' for o in obs):
+        cases = []
+        t_o = time.time()
+        entry = getattr(ex, 'entry', None)
+        if entry is not None:
+            # witnesses of the harness's own input assumptions, spread by random cells: each
+            # real input is confined to a random sub-interval of [-64, 64] (dropped if that makes
+            # the assumptions unsatisfiable); the solver completes the assignment
+            import random
+            rnd = random.Random(hashlib.sha1((hname + json.dumps(j['presets'], sort_keys=True)).encode()).hexdigest())
+            epc, end, ech = entry
+            reals = [(k, t) for k, (kind, bits, t) in sorted(end.items()) if kind == 'real']
+            for _ in range(nor * 3):
+                if len(cases) >= nor or time.time() - t_o > 60:
+                    break
+                so = z3.Solver()
+                so.set('timeout', 2000)
+                for c in epc:
+                    so.add(c)
+                for k, t in reals:
+                    w = rnd.choice([0.5, 2.0, 8.0, 32.0])
+                    lo = rnd.uniform(-64, 64 - w)
+                    so.push()
+                    so.add(z3.And(t >= z3.RealVal(repr(lo)), t <= z3.RealVal(repr(lo + w))))
+                    if so.check() != z3.sat:
+                        so.pop()     # this cell contradicts the assumptions: leave the input free
+                if so.check() != z3.sat:
+                    continue
+                vals = solve.model_values(so.model(), end)
+                cases.append(values_to_case(short, vals, ech, hc.get('params', {}), j['presets']))
+        else:
+            sts = list(getattr(ex, 'finished_all', []))
+            stepo = max(1, len(sts) // nor)
+            for st in sts[::stepo]:
+                if len(cases) >= nor or time.time() - t_o > 60:
+                    break
+                try:
+                    if ex.sat(st, None, want_model=True) == 'sat' and st.model is not None:
+                        vals = solve.model_values(st.model, st.nondet)
+                        cases.append(values_to_case(short, vals, st.choices, hc.get('params', {}), j['presets']))
+                except JobTimeout:
+                    break
+                except Exception:
+                    continue
+        if cases:
+            nat, out = run_native(pkgdir, cases, WORK, 'or')
+            nfail = 0
+            for case, n in zip(cases, nat):
+                if n is not None and n[0] == 'fail':
+                    nfail += 1
+                    h = hashlib.sha1(json.dumps(case, sort_keys=True).encode()).hexdigest()[:12]
+                    obs.append(dict(label='path witness fails the native harness: ' + n[1], kind='witness', hash=h, size=0, verdict='violation',
+                                    solver='model of a path condition + native oracle', time=0.0, case=case, native=list(n[:2]), native_msg=n[1]))
+                    break
+            hunt_notes.append('native oracle: %d path witnesses (models of explored path conditions) run on the real code, %d failed; outcomes %s'
+                              % (len(cases), nfail, json.dumps([(n[0], n[1][:60]) if n else None for n in nat])))
     # validation samples: a model of a few finished paths, to be replayed natively
     samples = []
     nval = hc.get('validate', 2)
@@ -406,7 +485,7 @@ def job_inner(j):
                 labels=sorted(res.labels), reached=res.reached, folded=res.folded, obligations=obs,
                 stubs=sorted(res.stubs), assumptions=sorted(fpops.CTX.assumptions | res.assumptions), notes=sorted(set(res.notes)) + hunt_notes,
                 forks=res.forks, merges=res.merges, samples=samples, params=getattr(res, 'params_used', {}),
-                mode=hc.get('mode', 'B'), wall=time.time() - t_start, pkgdir=pkgdir)
+                mode=hc.get('mode', 'B'), wall=time.time() - t_start, pkgdir=pkgdir, timed_out=bool(budget_hit))
 
 
 BASE_EX = None
@@ -512,7 +591,7 @@ def run(pid, seed, t0):
 def finish(pid, seed, t0, t_export, results, known):
     # a harness case that exceeds its wall-clock budget is a bound that was not reached:
     # inconclusive (nothing is claimed for it), not an engine failure
-    timeouts = [r for r in results if 'error' in r and r['error'].startswith('JobTimeout')]
+    timeouts = [r for r in results if ('error' in r and r['error'].startswith('JobTimeout')) or r.get('timed_out')]
     errors = [r for r in results if 'error' in r and not r['error'].startswith('JobTimeout')]
     good = [r for r in results if 'error' not in r]
     # native validation of sampled paths
